@@ -435,7 +435,9 @@ func genLenVal(r *gen.Rand, n int) V {
 	L := float64(n)
 	vals := []V{vN(0), vN(1), vN(L - 1), vN(L), vN(L + 1), vN(L + 3), vN(two32 - 1), vN(two32), vN(-1), vN(1.5), vN(math.NaN()),
 		vS("2"), vS("abc"), {K: "vo", Tag: "vl", Ret: pV(vN(1))}, vU(), {K: "null"}, {K: "b", B: true}, vN(math.Inf(1)), vS("0x2"),
-		vN(negZero), vS("1.5"), vS(""), {K: "vo", Tag: "vl2", Ret: pV(vN(-1))}, vN(2), vN(3), vS(" 3 "), vN(two32 + 1)}
+		vN(negZero), vS("1.5"), vS(""), {K: "vo", Tag: "vl2", Ret: pV(vN(-1))}, vN(2), vN(3), vS(" 3 "), vN(two32 + 1),
+		// the conversion of the new length changes the array it is being assigned to
+		{K: "vom", Tag: "vm0", Ret: pV(vN(0))}, {K: "vom", Tag: "vm2", Ret: pV(vN(2))}, {K: "vom", Tag: "vmL", Ret: pV(vN(L + 3))}, {K: "vom", Tag: "vmS", Ret: pV(vN(L))}}
 	return vals[r.Intn(len(vals))]
 }
 
@@ -443,6 +445,18 @@ func genCanonCase(r *gen.Rand) Input {
 	n := r.Range(0, 5)
 	rc := Recv{Kind: "array", E: genElems(r, n, 1, 4, true)}
 	in := Input{Cat: "canon", Recv: rc}
+	if n >= 2 && r.Chance(1, 20) {
+		// an element whose getter deletes its mirror image (or another element), then a method that
+		// reads pairs: the order of [[Get]] and [[HasProperty]] (15.4.4.8 step 6 d-g) decides the branch
+		a := r.Intn(n)
+		b := n - 1 - a
+		if r.Chance(1, 4) {
+			b = r.Intn(n)
+		}
+		in.Ops = append(in.Ops, Op{Op: "define", Name: fmt.Sprint(a), D: &DescSpec{Get: pV(genElem(r)), Set: true, GetDel: &b, E: pB(true), C: pB(true)}},
+			Op{Op: "call", M: []string{"reverse", "reverse", "shift", "unshift", "splice", "sort"}[r.Intn(6)]})
+		return in
+	}
 	if r.Chance(1, 3) {
 		in.Ops = genMods(r, rc, false)
 	}
@@ -471,6 +485,10 @@ func genCanonCase(r *gen.Rand) Input {
 				case 0:
 					d.Get = pV(genElem(r))
 					d.Set = r.Bool()
+					if r.Chance(1, 3) {
+						k := r.Range(0, n+1)
+						d.GetDel = &k
+					}
 				default:
 					d.Value = pV(genElem(r))
 				}
